@@ -277,6 +277,12 @@ func Nest(t *rapid.T, p *Profile, maxBytes int, label string) []byte {
 		if m*len(cl) > maxBytes {
 			m = maxBytes / len(cl)
 		}
+		if cl == "\n" && m > 200 {
+			// k open containers followed by m blank lines cost goldmark k*m bookkeeping entries (measured: 2500 x 5000
+			// needs 1.8 GB for a 10 KB document - noted in DESIGN as the nearest thing to a resource exhaustion);
+			// sixteen shards doing that at once exhaust the machine, which would make the run inconclusive
+			m = 200
+		}
 		doc = append(doc, bytes.Repeat([]byte(cl), m)...)
 	}
 	return p.Repair(doc)
